@@ -369,7 +369,8 @@ fn dir_ops(a: &mut Vec<Op>, step: usize, level: Level) {
     for (x, y) in pick2(&[("a", "b"), ("a", "d"), ("d", "e"), ("d", "b"), ("b", "a"), ("a", "e/x"), ("e", "d")], &[("a", "b"), ("d", "e"), ("a", "e/x")]) {
         a.push(Op::Rename(s(x), s(y)));
     }
-    for (x, y) in pick2(&[("a", "b"), ("a", "e/x"), ("d", "b"), ("b", "c")], &[("a", "b"), ("d", "b")]) {
+    // ("l", "c"): the source is itself a symbolic link (link(2) links the link, it does not follow it)
+    for (x, y) in pick2(&[("a", "b"), ("a", "e/x"), ("d", "b"), ("b", "c"), ("l", "c")], &[("a", "b"), ("d", "b"), ("l", "c")]) {
         a.push(Op::HardLink(s(x), s(y)));
     }
     for (x, y) in pick2(&[("a", "l"), ("b", "l"), ("a", "a"), ("d", "l")], &[("a", "l"), ("b", "l")]) {
